@@ -12,7 +12,8 @@
 (*    getpage: answers of pagetree.GetPage(i): [i, id, a],                  *)
 (*    numpages: answer of pagetree.NumPages (-1: not asked),                *)
 (*    fired  : the NextPageNumber callback invocations [c, v], in order]    *)
-(* IOEnv.CLAUSE selects one clause of the property ("all": every clause).   *)
+(* IOEnv.CLAUSE, or the field "clause" of a record, selects one clause of   *)
+(* the property ("all", the default: every clause).                         *)
 EXTENDS PageTreeRef, TraceLib
 
 Cases == Records
@@ -41,10 +42,12 @@ ClauseOK(c, order, name) ==
 
 AllClauses == <<"tree", "finite", "types", "order", "counts", "parents", "fanout",
                 "eff_m", "eff_c", "eff_r", "eff_s", "iter", "getpage", "numpages", "callbacks">>
+\* a record may name the clause it is to be judged by (field "clause")
+ClauseOf(c) == IF "clause" \in DOMAIN c THEN c.clause ELSE Clause
 CaseOK(c) ==
   LET order == Order(c)
-  IN IF Clause = "all" THEN \A j \in 1..Len(AllClauses) : ClauseOK(c, order, AllClauses[j])
-     ELSE ClauseOK(c, order, Clause)
+  IN IF ClauseOf(c) = "all" THEN \A j \in 1..Len(AllClauses) : ClauseOK(c, order, AllClauses[j])
+     ELSE ClauseOK(c, order, ClauseOf(c))
 
 VARIABLES i, bad, done
 vars == <<i, bad, done>>
